@@ -292,7 +292,7 @@ Theorem T14_10_line_cases :
 Proof. exact place_replacement_line_cases. Qed.
 Print Assumptions T14_10_line_cases.
 
-(* ... and format_template (f83e193) leaves the flagged lines of a binding alone when it indents the binding's
+(* ... and format_template (f93f22a) leaves the flagged lines of a binding alone when it indents the binding's
    other lines like the slot *)
 Theorem T14_10_binding_string_lines_verbatim :
   forall (strl : text -> list nat) (k : nat) (v : text) (j : nat),
